@@ -9,10 +9,11 @@ pub mod io {
     pub type Result<T> = core::result::Result<T, Error>;
     impl Error {
         pub fn from_raw_os_error(code: i32) -> (r: Error) ensures r.code == Some(code) { Error { code: Some(code) } }
+        pub fn raw_os_error(&self) -> (r: Option<i32>) ensures r == self.code { self.code }
     }
 }
 pub use io::{Error, Result};
-pub mod libc { pub const ENOENT: i32 = 2; }
+pub mod libc { pub const ENOENT: i32 = 2; pub const EACCES: i32 = 13; pub const ENOTDIR: i32 = 20; pub const ENOEXEC: i32 = 8; pub const EPERM: i32 = 1; }
 pub struct OsString { pub b: Vec<u8> }
 pub struct OsStr { pub b: Vec<u8> }
 impl OsString {
